@@ -591,13 +591,8 @@ def expr_interp(case, out):
         GEN_TABS, cstr(case["mode"]), cstr(case["unit"]), *("true" if b else "false" for b in f))
 
 
-def _record(v):
-    """Coq prints records as {| f := v; ... |}; the reader has no rule for that, so the expression below
-    is wrapped to print a tuple instead (see expr_interp_tuple)."""
-    return v
-
-
 def expr_interp_tuple(case, out):
+    """Coq prints records as {| f := v; ... |}, which the shared reader does not parse: print a tuple."""
     e = expr_interp(case, out)
     if case["kind"] != "prepare":
         return e
@@ -685,7 +680,7 @@ def scenario_cases(ctx):
     out = []
     combos = [(m, u, sv) for m in MODES for u in LENGTH_UNITS
               for sv in (("stamps", "none"), ("stamps", "other"), ("nostamps", "none"))]
-    reps = ctx.n(2, 8)
+    reps = ctx.n(2, 16)
     k = 0
     for rep in range(reps):
         for (m, u, (sk, start)) in combos:
